@@ -47,7 +47,7 @@ class C07(Prop):
     vacuity = {"quick": ["probe:delivered_from_memoised_prefix", "probe:delivered_after_fresh_pull",
                          "probe:abandoned_then_reevaluated", "probe:type_filter_skipped_element",
                          "probe:kind_gen", "probe:kind_iterobj", "probe:kind_logcol", "fault_fired:F5_stream_raise",
-                         "probe:multi_var_no_work_checked", "probe:exhaustive_vs_twin"]}
+                         "probe:multi_var_no_work_checked", "probe:exhaustive_vs_twin", "probe:evaluated_inside_block"]}
 
     # ------------------------------------------------------------------ generation
     def _gen_query(self, rng, tier, falsy=False):
@@ -95,7 +95,11 @@ class C07(Prop):
         ops = []
         for _ in range(rng.randint(1, 4)):
             k = rng.choice([None, 0, 1, 1, 2, 3, rng.randint(0, n), max(0, n - 1), max(0, n - 2), 21, 22])
-            ops.append(["eval", k, rng.choice(["close", "drop", "park"]) if k is not None else "exhaust"])
+            op = ["eval", k, rng.choice(["close", "drop", "park"]) if k is not None else "exhaust"]
+            if rng.random() < 0.3:
+                # the consumer advances the iterator from inside a block (also one entered with this very query)
+                op.append(rng.choice(["sym", "rule", "symq", "ruleq", "q"]))
+            ops.append(op)
         if rng.random() < 0.6:
             ops.append(["eval", None, "exhaust"])
         if rng.random() < 0.25:
@@ -206,9 +210,18 @@ class C07(Prop):
                         sig.append(("lazy_start",))
                         continue
                     k, how = op[1], op[2]
+                    ctx_kind = op[3] if len(op) > 3 else None
                     n_eval += 1
                     before = len(stream.pulls)
                     cb0 = sim.cb_total
+                    cm = None
+                    if ctx_kind:
+                        from entity_query_language import symbolic_mode, rule_mode
+                        q = run.pool.queries["q0"]
+                        cm = {"sym": symbolic_mode, "rule": rule_mode, "symq": lambda: symbolic_mode(q),
+                              "ruleq": lambda: rule_mode(q), "q": lambda: q}[ctx_kind]()
+                        cm.__enter__()
+                        sim.count("probe:evaluated_inside_block")
                     slot = run.start(f"_e{i}", "q0")
                     if len(stream.pulls) != before or sim.cb_total != cb0:
                         sim.violate("work-before-first-request", {"when": "evaluate()", "evaluation": n_eval,
@@ -239,6 +252,12 @@ class C07(Prop):
                             from_prefix += 1
                         else:
                             fresh += 1
+                    if cm is not None:
+                        try:
+                            cm.__exit__(None, None, None)
+                        except Exception:
+                            pass
+                        cm = None
                     if sim.violations:
                         break
                     if from_prefix:
